@@ -41,6 +41,14 @@ class Session:
     pass
 
 
+def _pt_eq(impl, model_vec, tol=1e-12):
+    """model point vs implementation point; the model's empty vector is the all-NaN point"""
+    impl = np.asarray(impl, dtype=float).ravel()
+    if len(model_vec) == 0:
+        return bool(len(impl) > 0 and np.all(np.isnan(impl)))
+    return bool(np.all(np.isfinite(impl))) and vclose(impl, model_vec, tol)
+
+
 def _inp(B, t):
     """one transition as `z~ells~tstars~gstar~aux` (None: not replayable on the model)"""
     k = t.kernel
@@ -55,9 +63,8 @@ def _inp(B, t):
         if t.xi is None or len(t.us) != 1:
             return None
         s = float(t.scale[0])
-        if s * s > 1:
-            return None
-        return f"{qv(t.xi)}~{ell(t.us[0])}~{B.xs(t.queries[0][1])}~_~{q(float(np.sqrt(1 - s ** 2)))}"
+        c = 0.0 if (s * s > 1 or not np.all(np.isfinite(t.x))) else float(np.sqrt(1 - s ** 2))   # NaN contraction / NaN point: model uses pcnNanStep
+        return f"{qv(t.xi)}~{ell(t.us[0])}~{B.xs(t.queries[0][1])}~_~{q(c)}"
     if k in ("expMALA", "legMALA"):
         if t.z is None or len(t.us) != 1 or not t.gqueries:
             return None
@@ -80,6 +87,8 @@ def run_leg_session(B, cuqi, k, sc, mode, N, Nb, scale, x0, script, hook, record
     S.kind, S.kernel, S.sc, S.mode, S.N, S.Nb, S.x0 = "leg", k, sc, mode, N, Nb, np.array(x0, dtype=float)
     S.scale0 = B.arr(scale).copy()
     S.recs, S.call_scales = [], []
+    if mode.startswith("step"):
+        S.x0 = S.x0 + 0.5              # step(x) / step_tune(x) are called with a point that differs from the constructor's x0
     with quiet(), script.installed():
         if k == "legMALA":
             sc.use_rng = False
@@ -107,17 +116,23 @@ def run_leg_session(B, cuqi, k, sc, mode, N, Nb, scale, x0, script, hook, record
             if mode == "A":
                 S.res = s.sample_adapt(N, Nb)
             elif mode == "step":
-                S.res = s.step(np.array(x0, dtype=float))
+                S.res = s.step(S.x0.copy())
+            elif mode == "step_tune0":
+                S.res = s.step_tune(S.x0.copy())
+            elif mode == "step_tune1":
+                S.res = s.step_tune(S.x0.copy(), 3)         # legacy tune() takes no argument
             else:
                 S.res = s.sample(N, Nb)
-        except (ZeroDivisionError, IndexError, ValueError) as e:
+        except (ZeroDivisionError, IndexError, ValueError, TypeError) as e:
             S.raised = type(e).__name__
         S.final_scale = B.arr(s.scale).copy() if s.scale is not None else None
     for i, t in enumerate(S.recs):
         records.append(("T", t))
         if i > 0:
             records.append(("chain", k, sc, S.recs[i - 1], t))
-    if S.raised is None and mode != "step" and k != "legCWMH" and hasattr(S.res, "samples"):
+    if mode.startswith("step") and S.recs:
+        records.append(("step-start", k, sc, S.x0.copy(), S.recs[0], mode))
+    if S.raised is None and not mode.startswith("step") and k != "legCWMH" and hasattr(S.res, "samples"):
         chain = np.asarray(S.res.samples)
         if chain.ndim == 2 and S.res.loglike_eval is not None:
             records.append(("returned-cache", k, sc, chain.copy(), np.asarray(S.res.loglike_eval, dtype=float).ravel().copy(), (mode, N, Nb)))
@@ -134,6 +149,11 @@ def leg_line(B, S):
     inps = [_inp(B, t) for t in S.recs]
     if any(i is None for i in inps):
         return None
+    if S.mode.startswith("step_tune"):
+        if len(S.recs) != 1 or (k == "legMALA" and not np.all(np.isfinite(S.recs[0].grad))):
+            return None
+        t0 = S.recs[0]
+        return f"lstep {k} {d} {qv(S.x0)} {B.xs(t0.logd)} {qv(t0.grad)} {qv(S.scale0)} {S.mode[-1]} {inps[0]}"
     N, Nb = (2, 0) if S.mode == "step" else (S.N, S.Nb)
     mode = "A" if S.mode == "A" else "S"
     if S.recs:
@@ -173,6 +193,11 @@ def leg_compare(B, S, out):
         return diffs
     if S.raised is not None:
         return [("refusal", "returns a chain", "raised " + S.raised)]
+    if S.mode.startswith("step_tune"):
+        got = np.asarray(S.res, dtype=float).ravel()
+        if not vclose(got, pv(out), 1e-12):
+            diffs.append(("step_tune-result", out, [float(v) for v in got]))
+        return diffs
     pts, logds, grads, scales, accs, trace, nupd = out.split()
     mp = pm(pts)
     res = S.res
@@ -192,7 +217,7 @@ def leg_compare(B, S, out):
         return diffs
     if k != "legCWMH":       # legacy CWMH overwrites the stored previous column through a view (C14 finding): points not judged
         for c in range(chain.shape[1]):
-            if not vclose(chain[:, c], mp[c], 1e-12):
+            if not _pt_eq(chain[:, c], mp[c]):
                 diffs.append(("returned-chain", {"column": c, "point": [float(v) for v in mp[c]]}, [float(v) for v in chain[:, c]]))
                 break
     if le is not None:
@@ -236,15 +261,28 @@ def run_exp_session(B, cuqi, k, sc, phases, scale, x0, script, hook, records, ct
     """phases: list of ("W", Nb, tune_freq) | ("S", n) | ("R", value) | ("L",)"""
     S = Session()
     S.kind, S.kernel, S.sc, S.phases, S.x0 = "exp", k, sc, phases, np.array(x0, dtype=float)
-    S.recs, S.tunes, S.ptoks, S.frame_fail = [], [], [], None
-    cur = {"recs": None}
+    S.recs, S.tunes, S.ptoks, S.frame_fail, S.inits = [], [], [], None, []
+    cur = {"recs": None, "sc": sc}
+    width = sc.dim if k == "expCWMH" else 1
+
+    def reinit(s, kind):
+        scn = cur["sc"]
+        x0_in = B.arr(s.initial_point).copy()                     # the INPUT of the operation (not read back from the state)
+        sc0 = np.broadcast_to(B.arr(s.initial_scale), (width,)).astype(float).copy()
+        scn.calls.clear(); scn.gcalls.clear()
+        s.reinitialize()
+        # recorded target values at the initial point (last evaluation there), not the sampler's own cache
+        t0 = next((v for (p, v) in reversed(scn.calls) if np.array_equal(p, x0_in)), None)
+        g0 = next((g for (p, g) in reversed(scn.gcalls) if np.array_equal(p, x0_in)), None) if k == "expMALA" else np.zeros(0)
+        S.inits.append((t0, g0))
+        S.ptoks.append((kind, (x0_in, sc0), None))
 
     def instrument(s):
         orig_step, orig_tune = s.step, s.tune
 
         def wstep():
             x, logd, grad, sca = B.exp_snapshot(k, s)
-            t = B.new_T(k, sc, "session", len(S.recs), x, logd, grad, sca, script, hook)
+            t = B.new_T(k, cur["sc"], "session", len(S.recs), x, logd, grad, sca, script, hook)
             acc = orig_step()
             hook.t = None
             B.finish_T(t, script)
@@ -287,9 +325,20 @@ def run_exp_session(B, cuqi, k, sc, phases, scale, x0, script, hook, records, ct
             elif ph[0] == "R":
                 s.scale = ph[1]
                 S.ptoks.append(("R", B.arr(s.scale).copy(), None))
+            elif ph[0] == "I":
+                ip = s.initial_point
+                if ph[1] == "new":
+                    s.initial_point = np.arange(1, sc.dim + 1) / 2.0
+                elif ph[1] == "inplace" and isinstance(ip, np.ndarray) and ip.dtype == np.float64 and ip.flags.writeable:
+                    ip[:] = -np.arange(1, sc.dim + 1) / 4.0          # same object, mutated in place
+                reinit(s, "I")
+            elif ph[0] == "T":
+                cur["sc"] = ph[1]
+                s.target = B.build_target(cuqi, k, ph[1])
+                reinit(s, "T")
             else:
                 state = s.get_state()
-                s2 = B.build_sampler(cuqi, k, sc, 0.3 if not k.endswith("CWMH") else scale, np.zeros(sc.dim) + 0.5)
+                s2 = B.build_sampler(cuqi, k, cur["sc"], 0.3 if not k.endswith("CWMH") else scale, np.zeros(sc.dim) + 0.5)
                 s2.initialize()
                 s2.set_state(state)
                 instrument(s2)
@@ -328,6 +377,8 @@ def exp_line(B, S):
             toks.append(f"W:{arg}:{body}" if kind == "W" else f"S:{body}")
         elif kind == "R":
             toks.append("R:" + qv(arg))
+        elif kind in ("I", "T"):
+            toks.append(f"{kind}:{qv(arg[0])}:{qv(arg[1])}:{B.xsv(_logv(arg[1]))}")
         else:
             toks.append("L")
     x, logd, grad, sca = S.init
@@ -335,8 +386,11 @@ def exp_line(B, S):
         return None
     ns = [t["scale1"] for t in S.tunes] if k != "expMALA" else []
     nstok = ";".join(qv(v) for v in ns) if ns else "_"
+    if any(t0 is None or g0 is None or not np.all(np.isfinite(g0)) for t0, g0 in S.inits):
+        return None
+    inits = "|".join(f"{B.xs(t0)}~{qv(g0)}" for t0, g0 in S.inits) if S.inits else "_"
     return (f"exp {k} float {width} {d} {qv(x)} {B.xs(logd)} {qv(grad)} {qv(sca)} {B.xsv(_logv(S.temp_init))} "
-            f"{_zetas(ntrans + 2)} {nstok} {'#'.join(toks) if toks else '_'}")
+            f"{_zetas(ntrans + 2)} {nstok} {inits} {'#'.join(toks) if toks else '_'}")
 
 
 def tune_lines(B, S):
@@ -357,7 +411,7 @@ def exp_compare(B, S, out):
     x, logd, grad, sca, lam, accs, smp, trace = out.split()
     diffs = []
     fx, flogd, fgrad, fsc = S.final
-    if not vclose(fx, pv(x), 1e-12):
+    if not _pt_eq(fx, pv(x)):
         diffs.append(("final-point", x, [float(v) for v in fx]))
     if not B.tok_eq_float(logd, flogd):
         diffs.append(("final-cached-logd", logd, repr(flogd)))
@@ -368,7 +422,7 @@ def exp_compare(B, S, out):
     if _bits(S.acc) != accs:
         diffs.append(("acc-history", accs[:200], _bits(S.acc)[:200]))
     ms = pm(smp)
-    if len(ms) != len(S.samples) or not all(vclose(a, b, 1e-12) for a, b in zip(S.samples, ms)):
+    if len(ms) != len(S.samples) or not all(_pt_eq(a, b) for a, b in zip(S.samples, ms)):
         diffs.append(("stored-samples", len(ms), len(S.samples)))
     if k != "expMALA":
         tr = _xrows(trace)
@@ -416,7 +470,10 @@ def generate(B, ctx, cuqi, records, stats):
     def mk(k, seed_off, fams=("quad_plain", "quartic", "flat", "support")):
         rs = np.random.RandomState(31000 * ctx.seed + seed_off)
         fam = fams[seed_off % len(fams)]
-        sc = B.make_scenario(rs, k, 6000 + seed_off, flat=(fam == "flat"), extreme=(fam if fam in ("quad_plain", "quartic") else None))
+        sc = B.make_scenario(rs, k, 6000 + seed_off, flat=(fam == "flat"),
+                             extreme=(fam if fam in ("quad_plain", "quartic", "huge", "posinf", "steep4") else None))
+        if fam == "support":
+            sc = B.make_scenario(rs, k, 6000 + seed_off, extreme="support")
         sc.prop_mean = None
         if k.endswith("PCN"):
             sc.prior_mean = np.zeros(sc.dim)
@@ -424,6 +481,8 @@ def generate(B, ctx, cuqi, records, stats):
         x0 = rs.randint(-6, 7, size=sc.dim) / 2.0
         if getattr(sc, "fam", "") in ("support", "posinf"):
             x0[:max(1, sc.dim - 1)] = 0.5
+        if fam == "huge":
+            x0 = np.round(x0 / 8.0 * 4) / 4          # near the mode of a very peaked target: almost every proposal is rejected
         script = B.Script(ctx.seed * 7919 + 50000 + seed_off)
         hook = B.UHook(np.random.RandomState(ctx.seed * 104729 + 50000 + seed_off))
         script.u_hook = hook
@@ -440,7 +499,7 @@ def generate(B, ctx, cuqi, records, stats):
 
     reps = 1 if not thorough else 6
     # legacy: burn-in lengths around the boundary cases, adaptation lengths with Na = 1, 2, 3 and N < 10 (refused)
-    leg_modes = [("S", 4, 0), ("S", 3, 2), ("S", 1, 4), ("S", 2, 5), ("S", 1, 0), ("S", 0, 3), ("S", 0, 0), ("step", 2, 0),
+    leg_modes = [("step_tune0", 2, 0), ("step_tune1", 2, 0), ("S", 4, 0), ("S", 3, 2), ("S", 1, 4), ("S", 2, 5), ("S", 1, 0), ("S", 0, 3), ("S", 0, 0), ("step", 2, 0),
                  ("A", 10, 0), ("A", 12, 3), ("A", 20, 1), ("A", 25, 11), ("A", 30, 0), ("A", 9, 2), ("A", 5, 0)]
     for k in ("legMH", "legPCN", "legMALA", "legCWMH"):
         for rep_ in range(reps):
@@ -463,6 +522,9 @@ def generate(B, ctx, cuqi, records, stats):
         [("W", 20, 0.15), ("L",), ("W", 9, 1.0 / 3), ("S", 2)],
         [("W", 1, 0.1), ("W", 3, 0.7), ("S", 1), ("R", 0.25), ("S", 2)],
         [("W", 40, 0.1)],
+        [("S", 2), ("I", "new"), ("W", 8, 0.25), ("S", 2)],
+        [("W", 8, 0.25), ("T",), ("S", 3), ("I", "same"), ("S", 1)],
+        [("S", 1), ("I", "inplace"), ("R", 0.5), ("T",), ("W", 4, 0.5), ("L",), ("S", 2)],
     ]
     for k in ("expMH", "expPCN", "expMALA", "expCWMH"):
         for rep_ in range(reps):
@@ -470,13 +532,79 @@ def generate(B, ctx, cuqi, records, stats):
                 so[0] += 1
                 fams = ("flat", "quad_plain", "flat", "quartic") if pi in (1, 6) else ("quad_plain", "quartic", "flat", "support")
                 rs, sc, x0, script, hook = mk(k, so[0], fams)
-                ph = [(p[0], (np.full(sc.dim, p[1]) if (k == "expCWMH" and rs.rand() < 0.5) else p[1])) if p[0] == "R" else p for p in phases]
+                ph = []
+                for p in phases:
+                    if p[0] == "R":
+                        ph.append((p[0], (np.full(sc.dim, p[1]) if (k == "expCWMH" and rs.rand() < 0.5) else p[1])))
+                    elif p[0] == "T":
+                        so[0] += 1
+                        sc2 = None
+                        for tr_ in range(50):            # a second target of the same dimension
+                            _, cand, _, _, _ = mk(k, so[0] + 1000 * tr_, fams)
+                            if cand.dim == sc.dim:
+                                sc2 = cand; break
+                        if sc2 is None:
+                            continue
+                        ph.append(("T", sc2))
+                    else:
+                        ph.append(p)
                 try:
                     S = run_exp_session(B, cuqi, k, sc, ph, scale_for(rs, k, sc.dim), x0, script, hook, records, ctx)
                     sessions.append(S)
                 except Exception as e:
                     ctx.note(f"experimental session raised: {k} phases={pi}: {repr(e)[:160]}")
                     stats["session-raised"] = stats.get("session-raised", 0) + 1
+    # ---- branches the histograms showed rarely or never hit (evidence: session_histogram["branch:*"]):
+    #  (a) tuning / adaptation that DEcreases lambda and stays uncapped: very peaked targets with large scales (low acceptance);
+    #  (b) NaN / -inf / +inf proposals inside experimental sessions (support-restricted and +inf-region targets), with tuning;
+    for k in ("legMH", "legPCN", "legCWMH"):
+        for rep_ in range(reps):
+            for (N, Nb) in ((20, 0), (30, 5)):
+                so[0] += 1
+                rs, sc, x0, script, hook = mk(k, so[0], ("huge",))
+                big = float(rs.choice([0.5, 1.0])) if k == "legPCN" else float(rs.choice([0.5, 1.0, 4.0]))
+                try:
+                    sessions.append(run_leg_session(B, cuqi, k, sc, "A", N, Nb, big, x0, script, hook, records))
+                except Exception as e:
+                    ctx.note(f"legacy low-acceptance session raised: {k}: {repr(e)[:160]}")
+                    stats["session-raised"] = stats.get("session-raised", 0) + 1
+    for k in ("expMH", "expPCN", "expCWMH", "expMALA"):
+        for rep_ in range(reps):
+            for fams, phases in ((("huge",), [("W", 20, 0.1), ("S", 2), ("W", 6, 0.5)]),
+                                 (("support",), [("W", 10, 0.2), ("S", 4)]),
+                                 (("posinf",), [("S", 3), ("W", 9, 1.0 / 3), ("L",), ("S", 2)]),
+                                 (("support",), [("S", 2), ("I", "new"), ("W", 6, 0.5), ("S", 2)])):
+                so[0] += 1
+                rs, sc, x0, script, hook = mk(k, so[0], fams)
+                if fams == ("huge",):
+                    scale = float(rs.choice([0.5, 1.0])) if k == "expPCN" else (0.25 if k == "expMALA" else float(rs.choice([0.5, 1.0, 4.0])))
+                else:
+                    scale = 1.0 if k == "expPCN" else (0.25 if k == "expMALA" else float(rs.choice([1.0, 2.0, 4.0])))
+                try:
+                    sessions.append(run_exp_session(B, cuqi, k, sc, phases, scale, x0, script, hook, records, ctx))
+                except Exception as e:
+                    ctx.note(f"experimental branch session raised: {k} {fams}: {repr(e)[:160]}")
+                    stats["session-raised"] = stats.get("session-raised", 0) + 1
+    #  (c) pCN with scale > 1 INSIDE a session (constructor scale, or assigned between phases; tuning brings it back <= 1)
+    for rep_ in range(reps):
+        for (mode, N, Nb, big) in (("S", 3, 2, 1.5), ("S", 4, 0, 3.0), ("A", 12, 1, 1.25)):
+            so[0] += 1
+            rs, sc, x0, script, hook = mk("legPCN", so[0], ("quad_plain", "flat", "quartic"))
+            try:
+                sessions.append(run_leg_session(B, cuqi, "legPCN", sc, mode, N, Nb, big, x0, script, hook, records))
+            except Exception as e:
+                ctx.note(f"legacy pCN scale>1 session raised: {repr(e)[:160]}")
+                stats["session-raised"] = stats.get("session-raised", 0) + 1
+        for (scale, phases) in ((0.5, [("S", 2), ("R", 1.5), ("S", 3), ("W", 4, 0.5), ("S", 2)]),
+                                (2.0, [("S", 3), ("L",), ("S", 2), ("W", 6, 0.5), ("S", 1)]),
+                                (1.25, [("W", 3, 0.1), ("R", 3.0), ("S", 2), ("I", "same"), ("S", 2)])):
+            so[0] += 1
+            rs, sc, x0, script, hook = mk("expPCN", so[0], ("quad_plain", "flat", "quartic"))
+            try:
+                sessions.append(run_exp_session(B, cuqi, "expPCN", sc, phases, scale, x0, script, hook, records, ctx))
+            except Exception as e:
+                ctx.note(f"experimental pCN scale>1 session raised: {repr(e)[:160]}")
+                stats["session-raised"] = stats.get("session-raised", 0) + 1
     return sessions
 
 
@@ -523,6 +651,11 @@ def judge(B, ctx, cuqi, owners, outs, new_fail_keys, stats):
         if kind == "tune":
             ctx.case(f"{k}:tune-call", {"target": S.sc.name, "skip_len": payload["T"], "update_count": payload["i"]})
             diffs = tune_compare(B, payload, out)
+            if len(out.split()) == 2:
+                for a, b0 in zip(out.split()[0].split(","), _logv(payload["temp0"])):
+                    v = _xval(a)
+                    bk = f"branch:tune:{k}:" + ("nan" if v != v else (("capped" if v > 0 else "uncapped") + (":up" if v > b0 else ":down")))
+                    hist[bk] = hist.get(bk, 0) + 1
         else:
             desc = {"kernel": k, "target": S.sc.name, "x0": [float(v) for v in S.x0]}
             if S.kind == "leg":
@@ -531,20 +664,44 @@ def judge(B, ctx, cuqi, owners, outs, new_fail_keys, stats):
                 hist[f"{k}:{S.mode}:N={S.N},Nb={S.Nb}"] = hist.get(f"{k}:{S.mode}:N={S.N},Nb={S.Nb}", 0) + 1
                 diffs = leg_compare(B, S, out)
             else:
-                desc.update(phases=[[p[0]] + [float(np.ravel(v)[0]) for v in p[1:]] for p in S.phases], tune_calls=len(S.tunes))
+                desc.update(phases=_pdesc(S.phases), tune_calls=len(S.tunes))
                 ctx.case(f"{k}:loop-exp", desc)
                 hist[f"{k}:tunes={len(S.tunes)}"] = hist.get(f"{k}:tunes={len(S.tunes)}", 0) + 1
                 diffs = exp_compare(B, S, out)
                 if S.frame_fail is not None:
                     ctx.fail(f"{k}:{S.sc.cls}:tune-frame", {**desc, **S.frame_fail}, "tune() leaves the point and the cached density/gradient untouched",
                              "changed", "tune() changed the current point or a cached value between two transitions")
+        if kind == "session":
+            for t in S.recs:
+                for a, (_, v) in zip(t.acc, t.queries):
+                    cls = "nan" if v != v else ("-inf" if v == -math.inf else ("+inf" if v == math.inf else "finite"))
+                    bk = f"branch:transition:{k}:{cls}:{'accept' if a else 'reject'}"
+                    hist[bk] = hist.get(bk, 0) + 1
+            if S.kind == "leg" and out not in ("err", "bad-op", "err-cert", "err-leaf") and not S.mode.startswith("step_tune"):
+                for row in _xrows(out.split()[5]):
+                    for v in row:
+                        bk = f"branch:adapt:{k}:" + ("nan" if v != v else ("capped" if v > 0 else "uncapped"))
+                        hist[bk] = hist.get(bk, 0) + 1
         for field, mv, iv in diffs:
             stats["loop-diff:" + field] = stats.get("loop-diff:" + field, 0) + 1
             desc = {"kernel": k, "target": S.sc.name, "x0": [float(v) for v in S.x0], "field": field,
-                    "session": (S.mode, S.N, S.Nb) if S.kind == "leg" else [[p[0]] + [float(np.ravel(v)[0]) for v in p[1:]] for p in S.phases]}
+                    "session": (S.mode, S.N, S.Nb) if S.kind == "leg" else _pdesc(S.phases)}
             key = new_fail_keys.get(k, f"{k}:{S.sc.cls}:session-tie:{field}")
             ctx.disagree(key, desc, mv, iv, f"loop model vs implementation: {field}")
     ctx.extra_cov["session_histogram"] = hist
+
+
+def step_start_oracle(B, ctx, r):
+    """ORACLE (implementation only): the transition made by legacy step(x) / step_tune(x) must start from x, with the
+    target's log-density at x as cached value."""
+    _, k, sc, xreq, t, mode = r
+    ctx.case(f"{k}:step-start", {"target": sc.name, "mode": mode})
+    if not np.array_equal(t.x, xreq):
+        key = f"{k}:{sc.cls}:step-start"
+        ctx.fail(key, {"kernel": k, "target": sc.name, "call": mode, "x": [float(v) for v in xreq]}, [float(v) for v in xreq],
+                 [float(v) for v in t.x], "step(x) made its transition from a point other than x")
+        return key
+    return None
 
 
 def returned_cache_oracle(B, ctx, r):
@@ -560,6 +717,21 @@ def returned_cache_oracle(B, ctx, r):
                      repr(true), repr(float(le[c])), "the cached log-density returned with a state is not the log-density of that state")
             return f"{k}:{sc.cls}:returned-cache"
     return None
+
+
+def _pdesc(phases):
+    out = []
+    for p in phases:
+        row = [p[0]]
+        for v in p[1:]:
+            if isinstance(v, str):
+                row.append(v)
+            elif hasattr(v, "name") and hasattr(v, "F"):
+                row.append("target=" + v.name)
+            else:
+                row.append(float(np.ravel(v)[0]))
+        out.append(row)
+    return out
 
 
 def _observed_interval(cuqi, nb, tf):
